@@ -199,6 +199,10 @@ type c29Model struct {
 	execs    []c29Exec
 	steps    []c29Step
 	explicit bool // an explicit-range, non-dry manual run happened
+	// windows whose aggregation ran and wrote rows but whose metadata commit was
+	// made to fail: not recorded, pointer not advanced, rows may be in the
+	// destination (the retry re-emits them with the same labels)
+	unrecorded []c29Exec
 }
 
 type c29Sys struct {
@@ -210,6 +214,41 @@ type c29Sys struct {
 	name  string
 	dest  string
 	query string
+	fault string // metadata-store fault armed for the NEXT execution only: "", "abort-update", "abort-insert"
+}
+
+// SQLite triggers that make exactly one metadata write fail (the statement is
+// aborted with an error, as a full disk / SQLITE_BUSY / constraint would).
+const (
+	c29TrigUpdate = `CREATE TRIGGER c29_fault_upd BEFORE UPDATE OF last_processed_time ON continuous_queries BEGIN SELECT RAISE(ABORT, 'verif: injected metadata-store fault'); END`
+	c29TrigInsert = `CREATE TRIGGER c29_fault_ins BEFORE INSERT ON continuous_query_executions BEGIN SELECT RAISE(ABORT, 'verif: injected metadata-store fault'); END`
+)
+
+func (s *c29Sys) armFault(t c29TB) {
+	var ddl string
+	switch s.fault {
+	case "abort-update":
+		ddl = c29TrigUpdate
+	case "abort-insert":
+		ddl = c29TrigInsert
+	default:
+		return
+	}
+	if _, err := s.h.sqliteDB.Exec(ddl); err != nil {
+		t.Fatalf("HARNESS arm fault: %v", err)
+	}
+}
+
+func (s *c29Sys) disarmFault(t c29TB) {
+	if s.fault == "" {
+		return
+	}
+	for _, q := range []string{"DROP TRIGGER IF EXISTS c29_fault_upd", "DROP TRIGGER IF EXISTS c29_fault_ins"} {
+		if _, err := s.h.sqliteDB.Exec(q); err != nil {
+			t.Fatalf("HARNESS disarm fault: %v", err)
+		}
+	}
+	s.fault = ""
 }
 
 func (s *c29Sys) open(t c29TB) {
@@ -363,8 +402,14 @@ func (s *c29Sys) execute(t c29TB, m *c29Model, scheduled, dry bool, startArg, en
 	if endArg != nil {
 		step.Detail += "end=" + endArg.Format(time.RFC3339Nano)
 	}
+	fault := s.fault
+	if fault != "" {
+		step.Detail += " fault=" + fault
+	}
 	step.Result = "expect " + want
 	m.steps = append(m.steps, step)
+	rowsBefore := len(m.execs)
+	s.armFault(t)
 
 	var gotStatus, gotStart, gotEnd string
 	var gotWritten int64 = -1
@@ -395,7 +440,12 @@ func (s *c29Sys) execute(t c29TB, m *c29Model, scheduled, dry bool, startArg, en
 			gotStatus = fmt.Sprintf("error: http %d %v", code, out["error"])
 		}
 	}
+	s.disarmFault(t)
 	isErr := strings.HasPrefix(gotStatus, "error")
+	if fault != "" && (want == "completed" || want == "failed" || (want == "empty-window" && !dry)) {
+		s.afterFault(t, m, step, fault, rowsBefore, start, end, explicit)
+		return
+	}
 	if want == "empty-window" {
 		switch {
 		case isErr && !(m.broken && !dry && len(s.execRows(t)) > len(m.execs)):
@@ -451,6 +501,80 @@ func (s *c29Sys) execute(t c29TB, m *c29Model, scheduled, dry bool, startArg, en
 	s.checkState(t, m, step.Op+" @"+step.Now+" "+step.Detail)
 }
 
+// afterFault is the oracle for an execution during which one metadata write was
+// made to fail. What the statement allows: the execution either counts (a
+// `completed` record for its window AND last_processed_time at its end) or it
+// does not (no `completed` record AND last_processed_time unchanged). A
+// `completed` record with a stale pointer makes the next run overlap it; an
+// advanced pointer without the record is an unrecorded window. A failed
+// execution never moves the pointer and never leaves a `completed` record.
+func (s *c29Sys) afterFault(t c29TB, m *c29Model, step c29Step, fault string, rowsBefore int, start, end time.Time, explicit bool) {
+	after := step.Op + " @" + step.Now + " " + step.Detail
+	verifkit.Class("meta-fault:" + fault)
+	rows := s.execRows(t)
+	if len(rows) < rowsBefore || len(rows) > rowsBefore+1 {
+		m.fail(t, "executions-count", "after %s: executions table went from %d to %d rows", after, rowsBefore, len(rows))
+	}
+	var added *c29Row
+	if len(rows) == rowsBefore+1 {
+		added = &rows[rowsBefore]
+		if added.Start != start.Unix() || added.End != end.Unix() {
+			m.fail(t, "execution-window", "after %s: recorded [%s, %s), expected [%s, %s)", after, c29Fmt(added.Start), c29Fmt(added.End), c29Fmt(start.Unix()), c29Fmt(end.Unix()))
+		}
+	}
+	cq, err := s.h.getQuery(s.id)
+	if err != nil {
+		t.Fatalf("HARNESS getQuery: %v", err)
+	}
+	var ptrNow *int64
+	if cq.LastProcessedTime != nil {
+		got, perr := time.Parse(time.RFC3339, *cq.LastProcessedTime)
+		if perr != nil {
+			m.fail(t, "pointer-wrong", "after %s: unparsable last_processed_time %q", after, *cq.LastProcessedTime)
+		}
+		u := got.Unix()
+		ptrNow = &u
+	}
+	same := func(a, b *int64) bool { return (a == nil && b == nil) || (a != nil && b != nil && *a == *b) }
+	moved := !same(ptrNow, m.ptr)
+	if moved && (ptrNow == nil || *ptrNow != end.Unix()) {
+		m.fail(t, "pointer-wrong", "after %s: last_processed_time=%v, neither unchanged nor the end of this window", after, cq.LastProcessedTime)
+	}
+	completedRow := added != nil && added.Status == "completed"
+	ex := c29Exec{Start: start.Unix(), End: end.Unix(), Explicit: explicit, Kind: step.Op, LabelUS: start.Unix() * 1000000}
+	switch {
+	case m.broken:
+		// the aggregation itself failed; the injected fault may also have eaten the `failed` record
+		if moved || completedRow {
+			m.fail(t, "failed-execution-advanced", "after %s (query fails): completed_record=%v pointer_moved=%v", after, completedRow, moved)
+		}
+		if added != nil {
+			ex.Status = "failed"
+			m.execs = append(m.execs, ex)
+		}
+	case completedRow && moved:
+		ex.Status = "completed"
+		m.execs = append(m.execs, ex)
+		e := end.Unix()
+		m.ptr = &e
+		if explicit {
+			m.explicit = true
+		}
+	case !completedRow && !moved:
+		if added != nil { // a `failed` record for the attempt is fine
+			ex.Status = added.Status
+			m.execs = append(m.execs, ex)
+		}
+		m.unrecorded = append(m.unrecorded, ex)
+	case completedRow && !moved:
+		m.fail(t, "record-without-advance", "after %s: window [%s, %s) is recorded as completed but last_processed_time did not advance to its end - the next run starts inside it (overlap, rows emitted twice)", after, c29Fmt(start.Unix()), c29Fmt(end.Unix()))
+	default:
+		m.fail(t, "advance-without-record", "after %s: last_processed_time advanced to %s but no completed execution is recorded for [%s, %s)", after, c29Fmt(end.Unix()), c29Fmt(start.Unix()), c29Fmt(end.Unix()))
+	}
+	m.steps[len(m.steps)-1].Result += fmt.Sprintf(" | observed record=%v advanced=%v", added != nil, moved)
+	s.checkState(t, m, after)
+}
+
 func c29MinutesTouched(e *c29Env, s, en int64) int64 {
 	lo, hi := maxI64c29(s, e.srcLo), minI64c29(en, e.srcHi)
 	if hi <= lo {
@@ -482,35 +606,59 @@ func (s *c29Sys) destRows(t c29TB) [][]string {
 // checkDest: the destination holds exactly the rows of the successful windows.
 func (s *c29Sys) checkDest(t c29TB, m *c29Model) {
 	got := s.destRows(t)
-	var want [][]string
-	if s.query == c29QNoTime {
-		for _, x := range m.execs {
-			if x.Status != "completed" {
-				continue
-			}
+	rowsOf := func(x c29Exec) [][]string {
+		var out [][]string
+		if s.query == c29QNoTime {
 			n := s.env.count(x.Start, x.End)
 			lo, hi := int64(-1), int64(-1)
 			if n > 0 {
 				lo = maxI64c29(x.Start, s.env.srcLo) * 1000000
 				hi = (minI64c29(x.End, s.env.srcHi) - 1) * 1000000
 			}
-			want = append(want, []string{fmt.Sprint(x.LabelUS), fmt.Sprint(n), fmt.Sprint(lo), fmt.Sprint(hi)})
+			return [][]string{{fmt.Sprint(x.LabelUS), fmt.Sprint(n), fmt.Sprint(lo), fmt.Sprint(hi)}}
 		}
-	} else {
-		for _, x := range m.execs {
-			if x.Status != "completed" {
-				continue
+		lo, hi := maxI64c29(x.Start, s.env.srcLo), minI64c29(x.End, s.env.srcHi)
+		for mnt := lo / 60 * 60; mnt < hi; mnt += 60 {
+			if n := minI64c29(hi, mnt+60) - maxI64c29(lo, mnt); n > 0 {
+				out = append(out, []string{fmt.Sprint(mnt * 1000000), fmt.Sprint(n)})
 			}
-			lo, hi := maxI64c29(x.Start, s.env.srcLo), minI64c29(x.End, s.env.srcHi)
-			for mnt := lo / 60 * 60; mnt < hi; mnt += 60 {
-				n := minI64c29(hi, mnt+60) - maxI64c29(lo, mnt)
-				if n > 0 {
-					want = append(want, []string{fmt.Sprint(mnt * 1000000), fmt.Sprint(n)})
-				}
-			}
+		}
+		return out
+	}
+	var want [][]string
+	for _, x := range m.execs {
+		if x.Status == "completed" {
+			want = append(want, rowsOf(x)...)
 		}
 	}
 	key := func(r []string) string { return strings.Join(r, "|") }
+	// rows of windows whose metadata commit was made to fail: the aggregation had
+	// already written them, so they may (not must) be present in addition
+	optional := map[string]int{}
+	for _, x := range m.unrecorded {
+		for _, r := range rowsOf(x) {
+			optional[key(r)]++
+		}
+	}
+	if len(optional) > 0 {
+		need := map[string]int{}
+		for _, r := range want {
+			need[key(r)]++
+		}
+		var rest [][]string
+		for _, r := range got {
+			k := key(r)
+			if need[k] > 0 {
+				need[k]--
+				rest = append(rest, r)
+			} else if optional[k] > 0 {
+				optional[k]--
+			} else {
+				rest = append(rest, r)
+			}
+		}
+		got = rest
+	}
 	sort.Slice(want, func(i, j int) bool { return c29Less(want[i], want[j]) })
 	sort.Slice(got, func(i, j int) bool { return c29Less(got[i], got[j]) })
 	if len(got) != len(want) {
@@ -598,7 +746,8 @@ func c29History(rt *rapid.T, env *c29Env) {
 	var trace []string
 	for i := 0; i < steps; i++ {
 		op := rapid.SampledFrom([]string{"tick", "tick", "tick", "sched", "sched", "tick-sched", "tick-sched", "tick-sched", "fail-sched", "fail-sched",
-			"manual", "manual-dry", "manual-explicit", "break", "repair", "repair", "restart", "restart", "interval", "inactive-try"}).Draw(rt, "op")
+			"manual", "manual-dry", "manual-explicit", "break", "repair", "repair", "restart", "restart", "interval", "inactive-try",
+			"meta-fault", "meta-fault", "meta-fault"}).Draw(rt, "op")
 		// shape of the open finding: a window whose start carries a sub-second part
 		// (initial look-back = now-1h while the clock is between two seconds)
 		snap := func() {
@@ -688,6 +837,18 @@ func c29History(rt *rapid.T, env *c29Env) {
 				m.interval = rapid.SampledFrom([]string{"10s", "1m", "5m", "1h"}).Draw(rt, "interval")
 			}
 			update(op)
+		case "meta-fault": // metadata-store fault during the next execution only, usually followed by a restart
+			tick()
+			snap()
+			sys.fault = rapid.SampledFrom([]string{"abort-update", "abort-update", "abort-insert"}).Draw(rt, "fault")
+			sys.execute(rt, m, rapid.IntRange(0, 3).Draw(rt, "faultsched") > 0, false, nil, nil)
+			sys.disarmFault(rt) // no-op unless the request was refused before reaching the store
+			if rapid.IntRange(0, 2).Draw(rt, "faultrestart") > 0 {
+				sys.h.Close()
+				sys.open(rt)
+				m.steps = append(m.steps, c29Step{Op: "restart", Now: m.now.Format(time.RFC3339Nano)})
+				sys.checkState(rt, m, "restart")
+			}
 		case "inactive-try": // deactivate, attempt an execution (must be refused), reactivate
 			m.active = false
 			update("deactivate")
@@ -712,9 +873,9 @@ func c29History(rt *rapid.T, env *c29Env) {
 	stage := 0
 	for _, st := range m.steps {
 		switch {
-		case st.Op == "scheduled" && st.Result == "expect completed" && (stage == 0 || stage == 2):
+		case st.Op == "scheduled" && st.Result == "expect completed" && !strings.Contains(st.Detail, "fault=") && (stage == 0 || stage == 2):
 			stage++
-		case stage == 1 && (st.Op == "restart" || st.Result == "expect failed"):
+		case stage == 1 && (st.Op == "restart" || st.Result == "expect failed" || strings.Contains(st.Detail, "fault=")):
 			stage = 2
 		}
 	}
